@@ -183,6 +183,18 @@ def i_type(rd, rs1, imm, *, opcode, funct3):
     return code
 
 
+# i-type variation for the CSR instructions: the immediate field holds the 12-bit CSR number
+def icsr_type(rd, rs1, csr, *, opcode, funct3):
+    if csr < -0x800 or csr > 0xfff:
+        raise ValueError('12-bit CSR number must be between 0x000 and 0xfff: {}'.format(csr))
+
+    # 0x800..0xfff set the top bit of the field (the negative spelling of those numbers still works)
+    if csr > 0x7ff:
+        csr -= 0x1000
+
+    return i_type(rd, rs1, csr, opcode=opcode, funct3=funct3)
+
+
 # i-type variation for JALR
 def ij_type(rd, rs1, imm, *, opcode, funct3):
     rd = lookup_register(rd)
@@ -764,12 +776,12 @@ EBREAK     = partial(i_type,   opcode=0b1110011, funct3=0b000, rd=0, rs1=0, imm=
 FENCE_I    = partial(i_type,   opcode=0b0001111, funct3=0b001, rd=0, rs1=0, imm=0)  # special syntax
 
 # RV32/RV64 "Zicsr" Control and Status Register (CSR) Instructions
-CSRRW      = partial(i_type,   opcode=0b1110011, funct3=0b001)
-CSRRS      = partial(i_type,   opcode=0b1110011, funct3=0b010)
-CSRRC      = partial(i_type,   opcode=0b1110011, funct3=0b011)
-CSRRWI     = partial(i_type,   opcode=0b1110011, funct3=0b101)
-CSRRSI     = partial(i_type,   opcode=0b1110011, funct3=0b110)
-CSRRCI     = partial(i_type,   opcode=0b1110011, funct3=0b111)
+CSRRW      = partial(icsr_type, opcode=0b1110011, funct3=0b001)
+CSRRS      = partial(icsr_type, opcode=0b1110011, funct3=0b010)
+CSRRC      = partial(icsr_type, opcode=0b1110011, funct3=0b011)
+CSRRWI     = partial(icsr_type, opcode=0b1110011, funct3=0b101)
+CSRRSI     = partial(icsr_type, opcode=0b1110011, funct3=0b110)
+CSRRCI     = partial(icsr_type, opcode=0b1110011, funct3=0b111)
 
 # RV32M Standard Extension for Integer Multiplication and Division
 MUL        = partial(r_type,   opcode=0b0110011, funct3=0b000, funct7=0b0000001)
